@@ -382,7 +382,7 @@ fn strace_batch(ctx: &Ctx, batch: usize, n: usize) -> CaseResult {
         cr.shape = Some(util::fnv(&format!("strace{}", batch)));
     }
     cr.sample = Some(json!({"strace_batch": batch, "locations": n, "file_syscalls": n_sys, "mutating": n_mut}));
-    cr.violations.truncate(6);
+    limit(&mut cr.violations, 6);
     cr
 }
 
@@ -499,7 +499,7 @@ fn main() {
             if i % 997 == 0 {
                 cr.sample = Some(json!({"location": shown, "endings": ["complete", "error", "interrupted"]}));
             }
-            cr.violations.truncate(3);
+            limit(&mut cr.violations, 3);
             cr
         }));
         let nr = ctx.tier.pick(3000usize, 50_000);
@@ -514,7 +514,7 @@ fn main() {
             if i % 499 == 0 {
                 cr.sample = Some(json!({"location": shown}));
             }
-            cr.violations.truncate(3);
+            limit(&mut cr.violations, 3);
             cr
         }));
         let nb = ctx.tier.pick(8usize, 64);
